@@ -64,7 +64,10 @@ type Document struct {
 	// pointerCache is setup once when the document is created.
 	pointerCache sync.Map // map[string]Node
 
-	families FamilyNodes
+	// families is only valid while familiesGeneration is the current cache
+	// generation, see invalidateCaches.
+	families           FamilyNodes
+	familiesGeneration int64
 }
 
 // String will render the entire GEDCOM document.
@@ -133,12 +136,14 @@ func (doc *Document) NodeByPointer(ptr string) Node {
 
 // Families returns the family entities in the document.
 func (doc *Document) Families() (families FamilyNodes) {
-	if doc.families != nil {
+	generation := currentCacheGeneration()
+	if doc.families != nil && doc.familiesGeneration == generation {
 		return doc.families
 	}
 
 	defer func() {
 		doc.families = families
+		doc.familiesGeneration = generation
 	}()
 
 	families = FamilyNodes{}
@@ -198,6 +203,8 @@ func (doc *Document) AddNode(node Node) {
 	if !IsNil(node) {
 		doc.nodes = append(doc.nodes, node)
 		doc.addPointerToCache(node)
+
+		invalidateCaches()
 	}
 }
 
@@ -278,6 +285,9 @@ func (doc *Document) nonIndividuals() Nodes {
 
 func (doc *Document) SetNodes(nodes Nodes) {
 	doc.nodes = nodes
+	doc.buildPointerCache()
+
+	invalidateCaches()
 }
 
 func individuals(doc *Document) IndividualNodes {
@@ -334,6 +344,12 @@ func (doc *Document) AddFamilyWithHusbandAndWife(pointer string, husband, wife *
 
 func (doc *Document) DeleteNode(node Node) (didDelete bool) {
 	doc.nodes, didDelete = doc.nodes.deleteNode(node)
+
+	// The node may have been found by its pointer, or another node with the
+	// same pointer may be found from now on.
+	doc.buildPointerCache()
+
+	invalidateCaches()
 
 	return
 }
